@@ -481,6 +481,20 @@ class Mitochondria:
             raise ValueError(f"Unknown tool: {tool_name}. Available: {available}")
 
         tool = self.tools[tool_name]
+        self._check_tool_capabilities(tool_name, tool)
+
+        args = [self._compute_node(arg) for arg in tree.body.args]
+        kwargs = {kw.arg: self._compute_node(kw.value) for kw in tree.body.keywords if kw.arg}
+
+        return tool.execute(*args, **kwargs)
+
+    def _check_tool_capabilities(self, tool_name: str, tool: Tool) -> None:
+        """
+        Least-privilege gate shared by every path that executes a tool.
+
+        Raises PermissionError if the tool requires a capability outside
+        ``allowed_capabilities`` (no-op for an unrestricted engine).
+        """
         required_caps = (
             getattr(tool, "required_capabilities", None)
             or getattr(tool, "capabilities", None)
@@ -494,11 +508,6 @@ class Mitochondria:
             raise PermissionError(
                 f"Tool '{tool_name}' requires disallowed capabilities: {missing}"
             )
-
-        args = [self._compute_node(arg) for arg in tree.body.args]
-        kwargs = {kw.arg: self._compute_node(kw.value) for kw in tree.body.keywords if kw.arg}
-
-        return tool.execute(*args, **kwargs)
 
     def _beta_oxidation(self, expression: str) -> Any:
         """
@@ -686,6 +695,7 @@ class Mitochondria:
 
         try:
             tool = self.tools[call.name]
+            self._check_tool_capabilities(call.name, tool)
             result = tool.execute(**call.arguments)
             return ToolResult(
                 call_id=call.id,
